@@ -25,3 +25,16 @@ TWINS = [
     T("rename-dt-variable", F, "            created_dt = _parse_iso_datetime(file_meta.created)\n            if created_dt is None:\n                return False\n            if self.created_after and created_dt < self.created_after:\n                return False\n            if self.created_before and created_dt >= self.created_before:", "            c_dt = _parse_iso_datetime(file_meta.created)\n            if c_dt is None:\n                return False\n            if self.created_after and c_dt < self.created_after:\n                return False\n            if self.created_before and c_dt >= self.created_before:"),
     T("close-without-none-test", F, "            if response is not None:\n                try:\n                    response.close()\n                except Exception:\n                    pass\n", "            try:\n                response.close()\n            except Exception:\n                pass\n"),
 ]
+
+# --- seeded changes kept under /verif/seeded (sub-agents saw only the property text); each must be reported by the named rule
+import os as _os
+from sa.selftest.harness import P as _P
+_SEEDS = _os.path.join(_os.path.dirname(_os.path.dirname(_os.path.dirname(_os.path.abspath(__file__)))), "seeded")
+SEEDED = [
+    ("C18-1", "C18-PART"),
+    ("C18-2", "C18-CMP"),
+    ("C18-3", "C18-STATE"),
+    ("C18-4", "C18-PROP"),
+    ("C18-5", "C18-CMP"),
+]
+MUTANTS = list(MUTANTS) + [_P("seed-" + sid, _os.path.join(_SEEDS, sid, "patch.diff"), rule) for sid, rule in SEEDED if _os.path.exists(_os.path.join(_SEEDS, sid, "patch.diff"))]
